@@ -22,6 +22,7 @@ import WuffsVerif.Proof.RacHCodec
 import WuffsVerif.Proof.RacCrc
 import WuffsVerif.Proof.RacRoundtrip
 import WuffsVerif.Proof.RacToyCodec
+import WuffsVerif.Proof.RacResources
 
 namespace WuffsVerif.Props.C13
 open WuffsVerif.Rac
@@ -324,6 +325,19 @@ stream sits in the file at `dataCOffset` (`CloseOK`). -/
 theorem index_roundtrip (c : CW) (hi : DataInv c) (he : c.err = none) (hne : c.leafNodes.size ≠ 0)
     (hcl : (c.close).2 = none) : CloseOK c :=
   CW.close_roundtrip c hi he hne hcl
+
+/-- `index_roundtrip_resources`: in the same situation the reader's chunks also carry the shared resources:
+chunk by chunk (`ResBytesOK`), the secondary / tertiary CRange is empty when `AddChunk` was given no resource,
+and otherwise its bytes start with exactly the bytes passed to the `AddResource` call that returned that id
+(the resource tags, the Codec-Element offset of the tags, the resource `COffset|CLength` entries and the
+`dataCOffset` shift all included).  What is NOT a theorem: that `rac.Writer.useResource` hands `AddChunk` the id
+of `WrapResource(ResourcesData[i])` for the `i` that `Compress` named — that bookkeeping is covered by the
+byte-exact tie and by the harness codec's reader, which checks the resource CRanges of every chunk. -/
+theorem index_roundtrip_resources (c : CW) (hi : DataInv c) (he : c.err = none) (hne : c.leafNodes.size ≠ 0)
+    (hcl : (c.close).2 = none) :
+    ∃ chs, Spec.chunks (c.close).1.io.wBytes.toArray = .ok (c.dFileSize, chs) ∧
+      ResBytesOK (c.close).1.io.wBytes.toArray c.resLog.reverse chs c.leafNodes.toList :=
+  CW.close_resources c hi he hne hcl
 
 /-- `rac_roundtrip`, the property C13 itself over the models.
 For every codec meeting its contract (`D` decompresses a primary CRange that starts with the chunk's compressed
